@@ -994,6 +994,23 @@ class Path:
                             names.add(root.id)
                 elif isinstance(n, ast.Call):
                     calls.append(n)
+                    # library functions that update a container argument in place (heapq.heappush(h, x), ...)
+                    dotted = None
+                    if isinstance(n.func, ast.Attribute) and isinstance(n.func.value, ast.Name):
+                        dotted = n.func.value.id + "." + n.func.attr
+                    elif isinstance(n.func, ast.Name):
+                        dotted = n.func.id
+                    lfc = self.unit.env.get(dotted) if dotted else None
+                    for pname in getattr(lfc, "updates", []) if lfc is not None else []:
+                        k_ = list(lfc.params).index(pname)
+                        an = n.args[k_] if k_ < len(n.args) else next((kw.value for kw in n.keywords if kw.arg == pname), None)
+                        root = an
+                        while isinstance(root, ast.Subscript):
+                            root = root.value
+                        if isinstance(root, ast.Name):
+                            names.add(root.id)
+                        elif isinstance(root, ast.Attribute):
+                            fields.add(root)
                     # in-place container methods on locals / fields
                     if isinstance(n.func, ast.Attribute) and n.func.attr in ("append", "insert", "pop", "remove", "extend",
                                                                             "clear", "sort", "reverse", "add", "discard", "update", "setdefault", "popitem"):
@@ -1796,6 +1813,12 @@ class Path:
             raise Unsupported("arithmetic operator %s" % type(op).__name__)
         if a.s == STR and b.s == STR and isinstance(op, ast.Add):
             return V(z3.Function("str_cat", z(STR), z(STR), z(STR))(a.t, b.t), STR)
+        if isinstance(a.s, SeqS) and isinstance(b.s, TupS) and isinstance(op, ast.Add) and all(e == a.s.elem for e in b.s.elems):
+            # a variable-length tuple (modelled as a sequence) extended by a tuple display: t + (e,)
+            r = a
+            for i in range(len(b.s.elems)):
+                r = ops.seq_append(r, V(tup_get(b.t, i), a.s.elem))
+            return r
         if isinstance(a.s, SeqS) and isinstance(op, ast.Add):
             a, b = self.unify(a, b)
             if a.t is None and b.t is None:
